@@ -4,7 +4,10 @@ import (
 	"fmt"
 	"grog/internal/config"
 	"grog/internal/model"
+	"os"
+	"path/filepath"
 	"slices"
+	"strconv"
 	"strings"
 )
 
@@ -20,48 +23,106 @@ func GetTargetChangeHash(target model.Target, dependencyHashes []string) (string
 		return targetDefinitionHash, nil
 	}
 
-	inputContentHash, err := HashFiles(absolutePackagePath, target.Inputs)
+	inputContentHash, err := hashInputFiles(absolutePackagePath, target.Inputs)
 	if err != nil {
 		return "", fmt.Errorf("failed hashing input files %s for target %s: %w", strings.Join(target.Inputs, ","), target.Label, err)
 	}
 	return fmt.Sprintf("%s_%s", targetDefinitionHash, inputContentHash), err
 }
 
-// hashTargetDefinition computes the configured hash of a single file.
+// hashTargetDefinition computes the configured hash of the target definition.
+// Every component is written length-prefixed (and every list with its element count) so that no two
+// different definitions can produce the same byte stream by shifting bytes between adjacent components.
 func hashTargetDefinition(target model.Target, dependencyHashes []string) (string, error) {
 	hasher := GetHasher()
 
-	_, err := hasher.WriteString(target.Label.String())
-	_, err = hasher.WriteString(target.Command)
-	_, err = hasher.WriteString(sorted(target.Inputs))
-	_, err = hasher.WriteString(sorted(target.OutputDefinitions()))
-	_, err = hasher.WriteString(sorted(dependencyHashes))
-	_, err = hasher.WriteString(sortedKeyValue(target.Fingerprint))
+	fields := []string{target.Label.String(), target.Command}
+	lists := [][]string{
+		sortedCopy(target.Inputs),
+		sortedCopy(target.OutputDefinitions()),
+		sortedCopy(dependencyHashes),
+		sortedKeyValue(target.Fingerprint),
+	}
+	for _, field := range fields {
+		if err := writeField(hasher, field); err != nil {
+			return "", err
+		}
+	}
+	for _, list := range lists {
+		if err := writeList(hasher, list); err != nil {
+			return "", err
+		}
+	}
 	if !target.IsMultiplatformCache() {
-		_, err = hasher.WriteString(config.Global.GetPlatform())
+		if err := writeField(hasher, config.Global.GetPlatform()); err != nil {
+			return "", err
+		}
 	}
 
-	if err != nil {
-		return "", err
-	}
 	// Return the hash as a hexadecimal string.
 	return hasher.SumString(), nil
 }
 
-func sorted(s []string) string {
-	slices.Sort(s)
-	return strings.Join(s, ",")
+// hashInputFiles computes a combined hash of the input files relative to absolutePackagePath.
+// Unlike HashFiles every file contributes its (length-prefixed) name and content digest, so that
+// moving bytes from the end of one file to the start of the next changes the hash.
+func hashInputFiles(absolutePackagePath string, fileList []string) (string, error) {
+	hasher := GetHasher()
+	for _, file := range sortedCopy(fileList) {
+		fileHash, err := HashFile(filepath.Join(absolutePackagePath, file))
+		if err != nil {
+			if os.IsNotExist(err) {
+				// NOTE: If a file does not exist in the package, we skip it (same as HashFiles).
+				continue
+			}
+			return "", fmt.Errorf("failed opening input file for hashing: %w", err)
+		}
+		if err := writeField(hasher, file); err != nil {
+			return "", err
+		}
+		if err := writeField(hasher, fileHash); err != nil {
+			return "", err
+		}
+	}
+	return hasher.SumString(), nil
 }
 
-func sortedKeyValue(m map[string]string) string {
-	if len(m) == 0 {
-		return ""
-	}
+// writeField writes s as "<len>:<s>"
+func writeField(hasher Hasher, s string) error {
+	_, err := hasher.WriteString(strconv.Itoa(len(s)) + ":" + s)
+	return err
+}
 
-	entries := make([]string, 0, len(m))
-	for k, v := range m {
-		entries = append(entries, fmt.Sprintf("%s=%s", k, v))
+// writeList writes the number of elements followed by every element as a field
+func writeList(hasher Hasher, list []string) error {
+	if _, err := hasher.WriteString(strconv.Itoa(len(list)) + "["); err != nil {
+		return err
 	}
+	for _, element := range list {
+		if err := writeField(hasher, element); err != nil {
+			return err
+		}
+	}
+	return nil
+}
 
-	return sorted(entries)
+func sortedCopy(s []string) []string {
+	c := slices.Clone(s)
+	slices.Sort(c)
+	return c
+}
+
+// sortedKeyValue returns the map as sorted, individually length-prefixed "key" "value" pairs
+func sortedKeyValue(m map[string]string) []string {
+	keys := make([]string, 0, len(m))
+	for k := range m {
+		keys = append(keys, k)
+	}
+	slices.Sort(keys)
+
+	entries := make([]string, 0, 2*len(m))
+	for _, k := range keys {
+		entries = append(entries, k, m[k])
+	}
+	return entries
 }
